@@ -116,6 +116,33 @@ pub mod empty_encoding {
 	pub struct AllSkipped { #[codec(skip)] pub a: u64, #[codec(skip)] pub b: u8 }
 	#[derive(Encode, Decode, PartialEq)]
 	pub struct UnitLike;
+	/// zero-sized in memory, one byte on the wire
+	#[derive(Encode, Decode, PartialEq, Clone, Copy)]
+	pub enum OneV { #[codec(index = 5)] Only }
+	#[kani::proof]
+	#[kani::unwind(8)]
+	pub fn c02q_zero_sized_elems_with_encoding() {
+		let suffix: [u8; 2] = kani::any();
+		// array
+		let a = [OneV::Only; 3];
+		let mut b = Buf::<8>::new(); a.encode_to(&mut b);
+		let n = b.n; b.put(suffix[0]); b.put(suffix[1]);
+		let mut inp = &b.d[..n + 2];
+		let r = <[OneV; 3]>::decode(&mut inp);
+		assert!(r.is_ok() && inp.len() == 2 && inp[0] == suffix[0], "array of zero-sized elements: decode must consume exactly the encoding");
+		// boxed array and tuple following field
+		let t = ([OneV::Only; 2], 0xabu8);
+		let mut b = Buf::<8>::new(); t.encode_to(&mut b);
+		let mut inp = b.bytes();
+		match <(Box<[OneV; 2]>, u8)>::decode(&mut inp) { Ok((_, x)) => { assert!(x == 0xab && inp.is_empty(), "field after an array of zero-sized elements decoded from the wrong offset"); }, Err(_) => { assert!(false); } }
+		// vector
+		let v = alloc::vec![OneV::Only; 2];
+		let mut b = Buf::<8>::new(); v.encode_to(&mut b);
+		assert!(b.n == 3);
+		let mut inp = Pre::count(2, &b.d[1..3]);
+		let r = Vec::<OneV>::decode(&mut inp);
+		assert!(r.map(|w| w.len()) == Ok(2) && inp.rest.is_empty());
+	}
 	#[kani::proof]
 	#[kani::unwind(8)]
 	pub fn c02q_vec_of_empty_encoding_elems() {
